@@ -39,7 +39,8 @@ MatchC08(e, d) ==
         /\ e.cb.ok /\ e.cb.added /\ e.cb.native.ok /\ SameConditionsAnyOrder(e.cb.native.r, e.direct.r) /\ e.cb.cost = e.cb.native.r.cost
         /\ e.ib.ok /\ e.ib.added /\ e.ib.native.ok /\ SameConditionsAnyOrder(e.ib.native.r, e.direct.r) /\ e.ib.cost = e.ib.native.r.cost
 
-MatchC02(e) == e.direct.ok => ObsAccepted(e.direct.r)
+SbRunsFee(e) == SumSeq([i \in DOMAIN e.runs |-> IF "res" \in DOMAIN e.runs[i] THEN DeclaredFeeOfConds(e.runs[i].res) ELSE Zero])
+MatchC02(e) == e.direct.ok => ObsAccepted(e.direct.r) /\ (SbOpaque(e) \/ ObsDeclaredFee(e.direct.r, SbRunsFee(e)))
 MatchC04(e, d) ==
   /\ (e.direct.ok /\ d.ok) => /\ e.direct.r.cost = d.cost /\ e.direct.r.ecost = d.ecost /\ e.direct.r.ccost = d.st.ret.ccost
   /\ e.direct.ok => Le(e.direct.r.cost, e.max) /\ ObsCostConsistent(e.direct.r)
